@@ -60,6 +60,8 @@ def role_call(name, hook_id, trigger, await_=None, critical=True, timeout="5s", 
     y = "%s- name: \"%s\"\n%s  call:\n%s    func: verif.Probe('%s')\n%s    trigger: %s\n" % (sp, name, sp, sp, hook_id, sp, trigger)
     if await_:
         y += "%s    await: %s\n" % (sp, await_)
+    elif await_ == "":
+        y += "%s    await: \"\"\n" % sp     # present but blank: means "where it is triggered", like an absent one
     y += "%s    timeout: %s\n%s    critical: %s\n" % (sp, timeout, sp, "true" if critical else "false")
     return y
 
